@@ -10,8 +10,8 @@ from . import _eval as E
 
 ID = "C13"
 SETS = {
-    "quick": ["U1L_all", "R2K", "P:P0q", "P:P4q"],
-    "thorough": ["U1L_all", "U2K", "P:P0", "P:P4"],
+    "quick": ["U1L_all", "R2K", "P:P0q", "P:P4q", "P:P6q"],
+    "thorough": ["U1L_all", "U2K", "P:P0", "P:P4", "P:P6"],
 }
 WR = {"quick": (2, 2), "thorough": (2, 3)}
 STEP = 40
